@@ -163,6 +163,12 @@ fn compare(parsed: &Circuit, nq: usize, exp: &[EGate], strict_zero_phase: bool) 
         }
         let r = g.phase.to_rational();
         let obs = (*r.numer(), *r.denom());
+        // a loaded phase is a phase like any other: the representative in (-1, 1], in lowest
+        // terms (`==` on phases compares representatives, so a circuit carrying 3/2 is not the
+        // circuit carrying -1/2 and does not survive print -> parse)
+        if obs.1 <= 0 || obs.0 <= -obs.1 || obs.0 > obs.1 || gcd(obs.0 as i128, obs.1 as i128) != 1 {
+            return Err(("phase-not-canonical".into(), e.tags.clone(), at("loaded phase is not the canonical representative in (-1,1]")));
+        }
         match &e.phase {
             Some(p) => {
                 if !phase_matches(p, obs) {
